@@ -6,6 +6,7 @@ package main
 
 import (
 	"go/ast"
+	"go/token"
 	"go/types"
 	"sort"
 	"strings"
@@ -151,8 +152,13 @@ func (pc *pathCtx) pathsOf(e ast.Expr, depth int, out map[string]bool) {
 				pc.pathsOf(ce, depth+1, sub)
 			}
 		}
+		if len(sub) == 0 && len(defs) == 1 && pc.cuts == cuts0 && !pc.keepContext && contextOnly(info, defs[0]) {
+			// defined once from run-constant context only (`qualifier := gen.NameRelativeTo(ctx.targetPackage)`):
+			// as constant over a run as the context it is computed from
+			return
+		}
 		if len(sub) == 0 {
-			out[obj.Name()] = true // derived from run-constant context only: a root of its own
+			out[obj.Name()] = true // a root of its own
 		}
 		for p := range sub {
 			out[p] = true
@@ -297,6 +303,30 @@ func paramIndex(fi *FuncInfo, obj types.Object) int {
 // allDefs: right-hand sides of `x = e`, `x := e`, `x += e`, `x[i] = e`.
 func allDefs(info *types.Info, fd *ast.FuncDecl, obj types.Object) []ast.Expr {
 	out := defsIn(info, fd, obj)
+	// a strings.Builder / bytes.Buffer holds what is written to it
+	if ts := obj.Type().String(); ts == "strings.Builder" || ts == "bytes.Buffer" || ts == "*strings.Builder" || ts == "*bytes.Buffer" {
+		isB := func(e ast.Expr) bool {
+			e = ast.Unparen(e)
+			if u, ok := e.(*ast.UnaryExpr); ok && u.Op == token.AND {
+				e = ast.Unparen(u.X)
+			}
+			i := identOf(e)
+			return i != nil && objOf(info, i) == obj
+		}
+		ast.Inspect(fd, func(n ast.Node) bool {
+			call, ok := n.(*ast.CallExpr)
+			if !ok {
+				return true
+			}
+			if sel, ok := call.Fun.(*ast.SelectorExpr); ok && isB(sel.X) && strings.HasPrefix(sel.Sel.Name, "Write") {
+				out = append(out, call.Args...)
+			}
+			if fn := fullName(calleeOf(info, call)); strings.HasPrefix(fn, "fmt.Fprint") && len(call.Args) > 0 && isB(call.Args[0]) {
+				out = append(out, call.Args[1:]...)
+			}
+			return true
+		})
+	}
 	ast.Inspect(fd, func(n ast.Node) bool {
 		as, ok := n.(*ast.AssignStmt)
 		if !ok {
@@ -503,4 +533,35 @@ func caseFoldIn(w *World, fi *FuncInfo, e ast.Expr, depth int) string {
 		return true
 	})
 	return found
+}
+
+// contextOnly: every variable e reads is of a run-constant context type (or package-level), it reads at least one,
+// and it contains no function literal and no call without operands (a counter or clock would not be run-constant).
+func contextOnly(info *types.Info, e ast.Expr) bool {
+	ok, nctx := true, 0
+	ast.Inspect(e, func(x ast.Node) bool {
+		switch v := x.(type) {
+		case *ast.FuncLit:
+			ok = false
+		case *ast.CallExpr:
+			if len(v.Args) == 0 {
+				if sel, isSel := v.Fun.(*ast.SelectorExpr); !isSel || rootIdent(sel.X) == nil {
+					ok = false
+				}
+			}
+		case *ast.Ident:
+			if o, isVar := info.Uses[v].(*types.Var); isVar && !o.IsField() {
+				if o.Pkg() != nil && o.Parent() == o.Pkg().Scope() {
+					return true
+				}
+				if isContextType(o.Type()) {
+					nctx++
+				} else {
+					ok = false
+				}
+			}
+		}
+		return ok
+	})
+	return ok && nctx > 0
 }
